@@ -1,5 +1,5 @@
 (* C04 — Experiments cannot wedge: quiescence implies a verdict; no hot loop. *)
-From KV Require Import Base.Prelude Base.Cond Model.World Proofs.WorldPlan Proofs.EqbRefl.
+From KV Require Import Base.Prelude Base.Cond Model.World Proofs.WorldPlan Proofs.EqbRefl Proofs.WorldInv2 Proofs.WorldQuiet.
 Open Scope Z_scope.
 
 (* The trial controller is never what wedges an experiment: a created, non-completed trial whose job is absent, or
@@ -23,3 +23,31 @@ Print Assumptions C04_trial_progress.
 Theorem C04_no_write_when_unchanged : forall e, status_write e (e_st e) = [].
 Proof. intro e. unfold status_write. now rewrite estatus_eqb_refl. Qed.
 Print Assumptions C04_no_write_when_unchanged.
+
+(* THE state-level theorem.  In any state of the joint model that satisfies the inductive invariant (every state reachable
+   without teardown does, C01_invariant), if the caches are synced, no reconcile of any controller (for every trial key, for
+   every correct answer of the services) plans a single write, the jobs have finished, the metrics of every trial are in
+   the DB (with a value for early-stopped trials) and the deployment is not pending, then an experiment with maxTrialCount
+   set carries a Succeeded or Failed verdict.
+   Two hypotheses are assumptions rather than consequences of the model: the algorithm service never returned the same
+   trial name twice (with duplicate names katib does wedge: the second assignment can never be materialised), and the
+   suggestion is not marked Succeeded while the experiment has no verdict (an invariant of the cleanup / restart
+   bookkeeping that is argued in DESIGN.md section 6 (C04) but not yet proved). *)
+Theorem C04_no_wedge : forall w e m,
+  Inv w -> 1 <= c_par (w_cfg w) -> quiescent w -> env_done w ->
+  w_exp w = Some e -> e_max e = Some m -> c_par (w_cfg w) <= m ->
+  (forall s, w_sug w = Some s -> NoDup (ss_names (s_st s)) /\ s_is (s_st s) SSucceeded = false) ->
+  e_completed (e_st e) = true.
+Proof. exact quiescent_completed. Qed.
+Print Assumptions C04_no_wedge.
+
+(* No hot loop: in a quiescent state a further reconcile of any controller attempts no write and changes nothing in the store. *)
+Theorem C04_no_hot_loop : forall w c key resp,
+  quiescent w -> good_resp w resp -> pending_of w c = [] ->
+  pending_of (step w (Begin c key resp false)) c = [] /\
+  w_exp (step w (Begin c key resp false)) = w_exp w /\ w_sug (step w (Begin c key resp false)) = w_sug w /\
+  w_trials (step w (Begin c key resp false)) = w_trials w /\ w_jobs (step w (Begin c key resp false)) = w_jobs w /\
+  w_infra (step w (Begin c key resp false)) = w_infra w /\ w_db (step w (Begin c key resp false)) = w_db w /\
+  g_writes (step w (Begin c key resp false)) = g_writes w.
+Proof. exact quiescent_no_write. Qed.
+Print Assumptions C04_no_hot_loop.
